@@ -93,6 +93,9 @@ def tv_groups(n, seed):
 
 def main():
     chk = Check("C18")
+    # unbounded integers: the antichain property is an inductive invariant of filter_insert (Apalache, symbolic)
+    chk.apalache("FilterInd.tla", "Init", "IndInv", 0, "base case: the empty filter is an antichain")
+    chk.apalache("FilterInd.tla", "IndInit", "IndInv", 1, "inductive step: Antichain /\\ Insert(a,b) => Antichain' for all integers a,b")
     states = chk.mc_dump("Filter_k5.cfg" if chk.thorough else "Filter_k3.cfg", "Filter.tla")
     if chk.thorough:
         chk.mc_dump("Filter_k4.cfg", "Filter.tla")
